@@ -17,6 +17,7 @@ import tempfile
 from vlib import crash, fakeos, graphs, hrun
 from vlib.fakeos import StatusExited, StatusSignaled
 from vlib.hrun import TaskSpec
+from vlib.symx import Inconclusive
 from vlib.runner import Space, Canary, rewrite
 
 ID = "C06"
@@ -192,11 +193,9 @@ def make_killed(only, seqs):
                 p0.cleanup()
             _L[cfg] = r0.get("lines", 0)
         L = _L[cfg]
-        kb = g.choose("kb", (max(L, 1) + 31) // 32)
+        kb = g.choose("kb", (max(L, 1) + 31) // 32 + 1)        # one block beyond the measured count, see below
         g.shard_point()
         k = kb * 32 + g.choose("ko", 32)
-        if k >= L:
-            return {"nontrivial": False, "sample": None}
         proj = project(args, opts, git)
         try:
             for i, st in enumerate(seq[:-1]):
@@ -207,6 +206,8 @@ def make_killed(only, seqs):
                 bool(args), bool(opts), git, list(seq), k, L, out.get("killed_at"))
             if "child_error" in out:
                 g.require(False, "index:harness-child-error", "%s; %s" % (out["child_error"], D))
+            if out.get("killed") and k >= L + 16:
+                raise Inconclusive("line numbering is not stable: the run without a fault had %d line events, an identical run reached %d" % (L, k))
             check_rows(g, proj, args, opts, D)
             rows = proj.index_rows()
             if seq[-1] in ("archive", "gc"):
